@@ -840,3 +840,13 @@ impl<K, V> HashMap<K, V> {
     { unimplemented!() }
 }
 // @end
+
+// @section option_extra
+/// assumed contract of std's Option::map_or_else (vstd has none; and_then has one): the default closure for None,
+/// else what the closure returns for the content
+pub assume_specification<T, U, D, F>[ core::option::Option::<T>::map_or_else ](o: Option<T>, d: D, f: F) -> (r: U)
+    where D: core::ops::FnOnce() -> U + core::marker::Destruct, F: core::ops::FnOnce(T) -> U + core::marker::Destruct,
+    requires o is None ==> d.requires(()), o is Some ==> f.requires((o->0,)),
+    ensures o is None ==> d.ensures((), r), o is Some ==> f.ensures((o->0,), r),
+;
+// @end
